@@ -75,6 +75,7 @@ def main(ctx):
         for i in range(8):
             jobs.append({"kind": "flat", "part": i, "parts": 8})
         jobs.append({"kind": "reentrant"})
+        jobs.append({"kind": "twosessions"})
         # the tiny single-API shards first: their counterexamples are the shortest
         jobs.sort(key=lambda j: (j["kind"] != "bfs", j.get("idseed", 0) != 0,
                                  -sum(1 for x in j.get("first", []) if x is None)))
@@ -92,7 +93,7 @@ def main(ctx):
               "v:unspecified", "protocol_error_raised", "three_outstanding", "two_kinds_outstanding",
               "reply_out_of_order", "id_wrapped", "flat_execs", "progress_details_delivered",
               "dup_after_result", "dup_after_error", "completed_ok", "completed_err",
-              "reentrant_execs"):
+              "reentrant_execs", "twosession_execs"):
         ctx.require(n)
 
 
@@ -794,7 +795,100 @@ def _job_reentrant(a, env, seed):
             "samples": [{"kind": "reentrant", "cases": stats["reentrant_execs"]}]}
 
 
+def _job_twosessions(a, env, seed):
+    """two sessions alive in one process issue requests that get the SAME request ids (each session
+    counts from 1).  A reply delivered to one session completes that session's request only; the
+    other session's request with the same id stays pending; an id that is pending only on the OTHER
+    session is unknown here (protocol violation)."""
+    import itertools
+    from harness import wamp_l1 as H
+    from autobahn.wamp import message as M
+    from autobahn.wamp import types as T
+    viol = []
+    stats = {"twosession_execs": 0, "nontrivial": 0}
+    seen = {}
+
+    def bad(clause, detail):
+        sig = "C04|two-sessions-%s" % clause
+        seen[sig] = seen.get(sig, 0) + 1
+        if seen[sig] <= 2:
+            viol.append({"sig": sig, "desc": "[fw=%s] %s" % (env.get("fw"), detail),
+                         "replay": {"env": {"fw": env.get("fw"), "nvx": "1"}, "func": "props.c04:job", "arg": a}})
+
+    def issue(l1, kind, tag):
+        s = l1.session
+        if kind == "call":
+            r = l1.api(s.call, "com.p.%s" % tag, tag)
+        elif kind == "publish":
+            r = l1.api(s.publish, "com.t.%s" % tag, tag, options=T.PublishOptions(acknowledge=True))
+        elif kind == "subscribe":
+            r = l1.api(s.subscribe, lambda *x, **y: None, "com.t.%s" % tag)
+        else:
+            r = l1.api(s.register, lambda *x, **y: None, "com.p.%s" % tag)
+        l1.settle()
+        if r[0] != "ok":
+            raise RuntimeError("harness: %s raised %r" % (kind, r[1]))
+        l1.track(kind, r[1])
+        return l1.transport.sent[-1].request
+
+    def reply(kind, rid, tag):
+        if kind == "call":
+            return M.Result(rid, args=["result-for-" + tag])
+        if kind == "publish":
+            return M.Published(rid, 1000 + len(tag))
+        if kind == "subscribe":
+            return M.Subscribed(rid, 2000 + len(tag))
+        return M.Registered(rid, 3000 + len(tag))
+    kinds = ["call", "publish", "subscribe", "register"]
+    for ka, kb in itertools.product(kinds, repeat=2):
+        for order in ("a-first", "b-first", "only-a"):
+            A, B = H.L1(), H.L1()
+            # NB: both sessions live at the same time; each L1() creates its own clock/loop
+            A.join()
+            B.join()
+            ra = issue(A, ka, "AAAA")
+            rb = issue(B, kb, "BB")
+            if ra != rb:
+                raise RuntimeError("harness: ids differ %r %r" % (ra, rb))
+            stats["twosession_execs"] += 1
+            stats["nontrivial"] += 1
+            tag = "%s/%s/%s" % (ka, kb, order)
+            seqs = {"a-first": [("A", A, ka, "AAAA"), ("B", B, kb, "BB")],
+                    "b-first": [("B", B, kb, "BB"), ("A", A, ka, "AAAA")],
+                    "only-a": [("A", A, ka, "AAAA")]}[order]
+            for (nm, l1, k, tg) in seqs:
+                other = B if l1 is A else A
+                ok_ = kb if l1 is A else ka
+                before = other.fstate(ok_)
+                exc = l1.deliver(reply(k, ra, tg))
+                l1.settle()
+                other.settle()
+                st = l1.fstate(k)
+                if exc is not None or st[0] != "ok":
+                    bad("own-reply-not-accepted", "%s: session %s got its own reply: exc=%r future=%r" % (
+                        tag, nm, exc, l1.fbrief(k)))
+                after = other.fstate(ok_)
+                if after != before and not (before[0] == "ok" and after[0] == "ok"):
+                    bad("other-session-touched", "%s: reply delivered to session %s changed the other "
+                        "session's request: %r -> %r" % (tag, nm, before, after))
+            if order == "only-a":
+                # B's request is still pending; a reply for an id that is pending only on B must be a
+                # protocol violation on A (A's request with that id is already completed)
+                exc = A.deliver(reply(ka, ra, "AAAA"))
+                if exc is None:
+                    bad("duplicate-accepted", "%s: second reply with id %d accepted on session A while "
+                        "session B has that id pending" % (tag, ra))
+                if B.fstate(kb)[0] != "pending":
+                    bad("other-session-touched", "%s: duplicate on A completed B's request: %r" % (
+                        tag, B.fbrief(kb)))
+    return {"evals": stats["twosession_execs"], "viol": viol, "stats": stats,
+            "samples": [{"kind": "twosessions", "cases": stats["twosession_execs"]}]}
+
+
 def job(a):
+    if a.get("kind") == "twosessions":
+        from mc import worker as _w
+        return _job_twosessions(a, _w.ENV, int(_w.ENV.get("seed", 0)))
     if a.get("kind") == "reentrant":
         from mc import worker as _w
         return _job_reentrant(a, _w.ENV, int(_w.ENV.get("seed", 0)))
